@@ -25,11 +25,13 @@ _sb = None
 _bins = {}
 
 
-def _init(cicada, nochecks):
+def _init(cicada, nochecks, asan=None):
     global _sb
     _sb = Sandbox(cicada, "c05")
     _bins["debug"] = cicada
     _bins["nochecks"] = nochecks
+    if asan:
+        _bins["asan"] = asan
 
 
 FRAGS = ["'", '"', "`", "\\", "$", "$(", ")", "(", "${", "}", "{", "|", "||", "&", "&&", ";", ">", ">>", "<", "<<<", "2>&1", "1>&2",
@@ -102,6 +104,9 @@ def judge_line(case):
         f.write("kout\n")
     line, mode, binary = case["line"], case["mode"], case["binary"]
     env = {"X": "$X", "Y": "$Z", "Z": "$Y"}
+    if binary == "asan":
+        # sanitizer pass: a report aborts the shell and is judged as a crash
+        env["ASAN_OPTIONS"] = "halt_on_error=1:abort_on_error=1:detect_leaks=0"
     if mode == "c":
         r = run_cicada(sb, ["-c", line], timeout=20, binary=_bins[binary], env_extra=env, budget=3000)
     elif mode == "script":
@@ -122,6 +127,9 @@ def judge_line(case):
         if r.diag and r.diag["procs"] and all(p["cpu_ticks"] == 0 for p in r.diag["procs"]):
             return ("violated", "C05:process:hang-deadlock:%s" % mode, res)
         return ("inconclusive", "timeout", res)
+    if b"AddressSanitizer" in r.err:
+        m = re.search(rb"AddressSanitizer: ([a-z-]+)", r.err)
+        return ("violated", "C05:process:asan-%s" % (m.group(1).decode() if m else "report"), res)
     if r.rc is not None and r.rc < 0:
         return ("violated", "C05:process:killed-by-signal-%d" % (-r.rc), res)
     if b"panicked at" in r.err or r.rc == 101:
@@ -268,10 +276,13 @@ def run(tier, seed):
     cases = []
     for _ in range(60000 if thorough else 5000):
         cases.append({"kind": "line", "line": gen_line(rng, seeds), "mode": rng.choice(["c", "c", "script", "stdin"]),
-                      "binary": rng.choice(["debug", "debug", "nochecks"])})
+                      "binary": rng.choice(["debug", "debug", "nochecks"] + (["asan", "asan"] if thorough else []))})
     for _ in range(1000 if thorough else 96):
         cases.append({"kind": "pty", "seed": rng.randrange(1 << 30)})
-    results = common.pmap(_work, cases, init=_init, initargs=(cicada, nochecks), chunksize=4)
+    asan = common.build_cicada("asan") if thorough else None
+    rep.extra["sanitizer_pass"] = ("layer-2 lines also run on an AddressSanitizer build (nightly -Zsanitizer=address), "
+                                   "halt_on_error=1: %d lines" % sum(1 for c in cases if c.get("binary") == "asan")) if thorough else "thorough tier only"
+    results = common.pmap(_work, cases, init=_init, initargs=(cicada, nochecks, asan), chunksize=4)
     for case, (verdict, sig, res) in zip(cases, results):
         rep.case(json.dumps(case), True, sample=({"layer": 2, "line": case["line"], "mode": case["mode"]} if case["kind"] == "line" else
                                                   {"layer": 3, "keys": res.get("keys", [])[:20]}))
